@@ -730,6 +730,12 @@ func c16Round4(s *source, e *emitter, t *translator) {
 	for _, f := range []string{"Keys", "KeysInt", "KeysInt64", "KeysUint", "KeysUint64", "KeysStr"} {
 		e.c16StmtList(s, st, "Set."+f, "setPub"+f+"Stmts")
 	}
+	e.c16StmtList(s, sm, "NewSafeMap", "newSafeMapStmts")
+	e.c16StmtList(s, rw, "NewRollingWindow", "newRollingWindowStmts")
+	e.c16StmtList(s, rw, "newWindow", "newWindowStmts")
+	e.c16StmtList(s, rw, "IgnoreCurrentBucket", "ignoreCurrentStmts")
+	e.c16StmtList(s, rw, "Bucket.Add", "bucketAddStmts")
+	e.c16StmtList(s, rw, "Bucket.Reset", "bucketResetStmts")
 	e.c16StmtList(s, ca, "newKeyLru", "newKeyLruStmts")
 	e.c16StmtList(s, ca, "Cache.size", "cacheSizeStmts")
 	e.c16StmtList(s, ca, "newCacheStat", "newCacheStatStmts")
